@@ -9,6 +9,7 @@ VARIABLES coord, c
 Lf == << Lit(<<"bool", TRUE>>), Lit(L(1)), Lit(MinL), Lit(MaxL), Lit(S(<<97, 34, 92, 10, Smile>>)), Lit(Ua), V("principal"), V("context"),
          Get(V("context"), "n"), SetE(<<Lit(L(1)), Lit(StrA)>>), RecE([a |-> Lit(L(1)), if |-> Lit(StrA)], <<"a", "if">>), Dec(<<49, 46, 53>>) >>
 LfSet == {Lf[i] : i \in 1..Len(Lf)}
+HasChain(b, as) == LET RECURSIVE H(_) H(k) == IF k = 1 THEN <<"has", b, as[1]>> ELSE <<"and", H(k - 1), <<"has", GetPath(b, SubSeq(as, 1, k - 1)), as[k]>>>> IN H(Len(as))
 Exprs(k) ==
   CASE k = "bin" -> {Bin(BinOps[i], x, y) : i \in 1..Len(BinOps), x \in LfSet, y \in {Lf[2], Lf[5], Lf[6], Lf[10]}}
     [] k = "un" -> {<<op, x>> : op \in {"not", "neg", "isEmpty"}, x \in LfSet}
@@ -21,6 +22,14 @@ Exprs(k) ==
                      \cup {Call(f, <<x, y>>) : f \in {"lessThan", "isInRange"}, x \in {Lf[12], Lf[2]}, y \in {Lf[12]}}
                      \cup {Call(f, <<x>>) : f \in {"decimal", "ip", "isIpv4", "toDate"}, x \in {Lf[5], Lf[12]}}
                      \cup {Bin("add", Bin("mul", Lf[2], x), <<"neg", y>>) : x \in {Lf[2], Lf[9]}, y \in {Lf[2], Lf[3]}}
+    [] k = "alt" -> {HasChain(b, as) : b \in {Lf[7], Lf[8], Lf[9], Lf[11]}, as \in {<<"n", "m">>, <<"a b", "if", "">>, <<"n", "n", "n", "n">>}}
+                    \cup {<<"and", HasChain(Lf[8], <<"n", "m">>), HasChain(Lf[7], <<"x", "y">>)>>,
+                          <<"and", <<"and", Lf[1], <<"has", Lf[8], "n">>>>, <<"has", Get(Lf[8], "n"), "m">>>>,
+                          <<"and", <<"has", Lf[8], "n">>, <<"has", Get(Lf[7], "n"), "m">>>>,
+                          <<"or", HasChain(Lf[8], <<"n", "m">>), <<"not", HasChain(Lf[8], <<"n", "m", "k">>)>>>>}
+                    \cup {Bin("eq", x, y) : x, y \in {SetE(<<>>), Lf[10], SetE(<<Lit(Ua), Lit(<<"bool", FALSE>>), Lit(MinL)>>), Lf[11],
+                                                      RecE([k |-> Lit(Ua)], <<"k">>), Dec(<<49, 46, 53>>), Call("ip", <<Lit(S(<<49, 46, 50, 46, 51, 46, 52>>))>>),
+                                                      SetE(<<Lf[10], Lit(L(1))>>)}}
 AnyS == <<"any">>
 PScopes == <<AnyS, <<"eq", Ua>>, <<"in", Gg>>, <<"is", "User">>, <<"isin", "User", Gg>>, <<"eqslot">>, <<"inslot">>, <<"isinslot", "NS::T">>>>
 AScopes == <<AnyS, <<"eq", Av>>, <<"inset", <<Av, Ae>>>>, <<"inset", <<>>>>, <<"in", Av>>>>
@@ -28,7 +37,7 @@ RScopes == <<AnyS, <<"eq", Dd>>, <<"is", "Doc">>, <<"inslot">>, <<"isin", "Doc",
 Anns == << <<>>, <<<<"id", <<120>>>>>>, <<<<"a", <<>>>>, <<"b_c", <<34, 92, 10, Smile>>>>>> >>
 Pol(eff, pr, ac, re, conds, ann) == [effect |-> eff, principal |-> pr, action |-> ac, resource |-> re, conds |-> conds, annotations |-> ann, id |-> "p"]
 
-Coords == {<<"expr", k, w>> : k \in {"bin", "un", "acc", "misc"}, w \in {"when", "unless"}} \cup {<<"scope", i>> : i \in 1..Len(PScopes)} \cup {<<"clauses">>}
+Coords == {<<"expr", k, w>> : k \in {"bin", "un", "acc", "misc", "alt"}, w \in {"when", "unless"}} \cup {<<"scope", i>> : i \in 1..Len(PScopes)} \cup {<<"clauses">>}
 CasesOf(k) ==
   CASE k[1] = "expr" -> {Pol("permit", AnyS, AnyS, AnyS, <<<<k[3], e>>>>, Anns[1]) : e \in Exprs(k[2])}
     [] k[1] = "scope" -> {Pol(eff, PScopes[k[2]], AScopes[a], RScopes[r], <<>>, Anns[n]) : eff \in {"permit", "forbid"}, a \in 1..Len(AScopes), r \in 1..Len(RScopes), n \in 1..Len(Anns)}
@@ -36,5 +45,5 @@ CasesOf(k) ==
                             : cs \in {<<>>, <<<<"when", Lf[1]>>, <<"unless", Lf[9]>>>>, <<<<"unless", Lf[1]>>, <<"unless", Lf[1]>>, <<"when", Bin("eq", Lf[2], Lf[2])>>>>}}
 Init == coord \in Coords /\ c = <<>>
 Next == c = <<>> /\ c' \in CasesOf(coord) /\ UNCHANGED coord
-Dump == PrintT("CASE " \o ToJson([policy |-> c', est |-> EstOf(c')]))
+Dump == PrintT("CASE " \o ToJson([policy |-> c', est |-> EstOf(c'), alt |-> EstAltOf(c')]))
 ==============================================================================
